@@ -51,10 +51,11 @@ int main(int argc, char** argv) {
 	return main_loop(argc, argv, [&](Case& c) {
 		static bool init = false; if(!init) { init = true; auto& a = st().args; for(std::size_t i = 0; i + 1 < a.size(); ++i) if(a[i] == "--maxext") MAXE = std::atoi(a[i + 1].c_str()); }
 		Rng& g = c.rng; int const ak = int(g.below(3)); auto e = rnd_ext(g, MAXE); long id = 1;
-		Arr A(make_extensions<D>(e)); for(L k = 0; k < A.num_elements(); ++k) A.data_elements()[k] = mk(id++);
+		std::vector<L> bs(std::size_t(D), 0); bool const rebased = (c.k % 3 != 2) && g.chance(1, 3); if(rebased) for(auto& x : bs) x = g.in(-2, 2);  // index ranges that do not start at 0 are part of the extents
+		Arr A(make_extensions<D>(bs, e)); for(L k = 0; k < A.num_elements(); ++k) A.data_elements()[k] = mk(id++);
 		if(c.k % 3 != 2) {  // ---- whole-array round trip into an array in some prior state
 			int const prior = int(g.below(6)); static char const* PN[] = {"empty", "same-extents", "other-extents", "larger", "moved-from", "same-count-other-extents"};
-			std::string const K = std::string("C17:array:") + AK[ak] + ":" + PN[prior] + ":"; describe(std::string("array<") + TN + "," + std::to_string(D) + "> " + AK[ak] + " extents=" + join(e, "x") + " prior=" + PN[prior]); sig_mix(K.c_str()); sig_mix(std::uint64_t(A.num_elements() == 0)); nontrivial(A.num_elements() >= 2);
+			std::string const K = std::string("C17:array:") + AK[ak] + ":" + PN[prior] + ":"; describe(std::string("array<") + TN + "," + std::to_string(D) + "> " + AK[ak] + " extents=" + join(e, "x") + (rebased ? " first-indices=" + join(bs) : std::string()) + " prior=" + PN[prior]); if(rebased) count("rebased-arrays"); sig_mix(K.c_str()); sig_mix(std::uint64_t(A.num_elements() == 0)); nontrivial(A.num_elements() >= 2);
 			op((std::string("save:") + AK[ak]).c_str()); std::string const s = save(ak, A);
 			Arr B; std::vector<L> pe = e;
 			switch(prior) { case 1: B = Arr(make_extensions<D>(e)); break; case 2: for(auto& x : pe) x = g.in(1, MAXE); B = Arr(make_extensions<D>(pe)); break; case 3: for(auto& x : pe) x += 2; B = Arr(make_extensions<D>(pe)); break;
@@ -68,6 +69,13 @@ int main(int argc, char** argv) {
 #if C17_T == 0
 			if(ak == 2) { std::regex re("<(?:elem|item)>(-?\\d+)</(?:elem|item)>"); auto b = std::sregex_iterator(s.begin(), s.end(), re); L cnt = 0; bool order = true; for(auto it = b; it != std::sregex_iterator(); ++it, ++cnt) order &= (std::stol((*it)[1]) == cnt + 1); if(cnt != A.num_elements() || !order) violation(K + "xml-contents", "the XML archive does not hold exactly the elements in canonical order (" + std::to_string(cnt) + " items)"); }
 #endif
+			if(A.num_elements() > 0) {  // array_ref over guarded storage with the same (possibly re-based) extensions: save through one ref, load through another
+				L const N = A.num_elements(); std::vector<T> sb(std::size_t(N + 8), mk(9001)), lb(std::size_t(N + 8), mk(9002)); for(L k = 0; k < N; ++k) sb[std::size_t(4 + k)] = A.data_elements()[k];
+				multi::array_ref<T, D> SR(make_extensions<D>(bs, e), sb.data() + 4), LR(make_extensions<D>(bs, e), lb.data() + 4);
+				op((std::string("save-array_ref:") + AK[ak]).c_str()); std::string const s3 = save(ak, SR); op((std::string("load-array_ref:") + AK[ak]).c_str()); load(ak, s3, LR);
+				for(L k = 0; k < N; ++k) if(!(lb[std::size_t(4 + k)] == A.data_elements()[k])) { violation(K + "array_ref:elements", "array_ref round trip: element " + std::to_string(k) + " differs"); break; }
+				for(L k = 0; k < 4; ++k) if(!(lb[std::size_t(k)] == mk(9002)) || !(lb[std::size_t(4 + N + k)] == mk(9002))) { violation(K + "array_ref:outside-written", "loading into an array_ref wrote outside the referenced block"); break; }
+				count("array_ref-roundtrip"); }
 			count(std::string("roundtrip:") + AK[ak]);
 		} else {  // ---- view round trip: save a view, load into a view of equal extents over a guarded root
 			if(A.num_elements() == 0) { describe("view of empty (skipped)"); return; }
